@@ -116,6 +116,7 @@ class PairType(MichelsonType, ADTMixin, prim='pair', args_len=None):
         if len(args) == 2:
             value = tuple(cls.args[i].from_micheline_value(arg) for i, arg in enumerate(args))
         elif len(args) > 2:
+            assert issubclass(cls.args[1], PairType), f'expected 2 args, got {len(args)} (the right component is {cls.args[1].prim})'
             value = cls.args[0].from_micheline_value(args[0]), cls.args[1].from_micheline_value(args[1:])
         else:
             raise AssertionError(f'at least two args expected, got {len(args)}')
